@@ -218,7 +218,7 @@ const PARSER_SITES: &[SiteRow] = &[
     SiteRow { func: "parser::parse_program::{closure#0}", kind: "panic", max: 1, discharge: "D.mode", why: "unreachable!: parse(.., Mode::Module, ..) returns Mod::Module (C01.T4)" },
     SiteRow { func: "<rustpython_ast::Stmt as parser::Parse>::parse_tokens", kind: "index", max: 1, discharge: "D.lenmatch", why: "statements[1] in the `_` arm of match statements.len() after arms 0 and 1" },
     SiteRow { func: "<rustpython_ast::Stmt as parser::Parse>::parse_tokens", kind: "Option::unwrap", max: 1, discharge: "D.lenmatch", why: "statements.pop().unwrap() in the arm len == 1" },
-    SiteRow { func: "<soft_keywords::SoftKeywordTransformer<I> as std::iter::Iterator>::next", kind: "assert:Overflow", max: 4, discharge: "D.counter", why: "bracket-depth counters, incremented once per peeked token (bounded by the token count < 2^31)" },
+    SiteRow { func: "<soft_keywords::SoftKeywordTransformer<I> as std::iter::Iterator>::next", kind: "assert:Overflow", max: 6, discharge: "D.counter", why: "bracket-depth counters (i32) and the open-lambda counter (u32) move by one per peeked token (token count < 2^31 for inputs below 4 GiB); the lambda counter is decremented only under `open_lambdas > 0` (C01.S2 lambda pairing)" },
     SiteRow { func: "function::parse_args", kind: "TextRange::new", max: 1, discharge: "D.range", why: "(start, end) is the @L/@R pair captured around one FunctionArgument (non-nullable)" },
     SiteRow { func: "<lexer::CharWindow<T, N> as std::ops::Index<Idx>>::index", kind: "index", max: 1, discharge: "D.idx", why: "forwards to the [Option<char>; 3] array: every caller passes a constant slot (C03.D.const)" },
     SiteRow { func: "lexer::CharWindow::<T, N>::slide", kind: "Option::expect", max: 1, discharge: "D.arr", why: "last_mut() of [Option<char>; N], N = 3 at the only instantiation" },
